@@ -762,14 +762,14 @@ def r18_error_term_interval_is_closed(ck, P, rid='C12-R18'):
     n = 0
     for f in fs:
         ck.saw(f)
-        # NE: the 64-bit value whose truncation is stored into pixman_edge.e first
-        NE = None
+        # NE: the 64-bit values whose truncation is stored into pixman_edge.e (the advanced error term, possibly one per direction)
+        NEs = set()
         for x in f.insts():
             if x.op == 'store' and f.last_field(f.path(x.a[1])) == 'pixman_edge.e':
                 y = f.v(f.strip_casts(x.a[0]))
-                if y is not None and y.op == 'add' and y.ty == 'i64':
-                    NE = y; break
-        if NE is None:
+                if y is not None and y.op in ('add', 'sub') and y.ty == 'i64':
+                    NEs.add(y.i)
+        if not NEs:
             raise AnalysisBroken('%s: the advanced error term of pixman_edge_step was not recognised' % rid)
         def is_neg_dy(o):
             y = f.v(f.strip_casts(o)) if o[0] == 'v' else None
@@ -786,9 +786,9 @@ def r18_error_term_interval_is_closed(ck, P, rid='C12-R18'):
                 continue
             sw = {'slt': 'sgt', 'sgt': 'slt', 'sle': 'sge', 'sge': 'sle'}
             a0, a1 = ops
-            if list(a1) == ['v', NE.i]:
+            if a1[0] == 'v' and a1[1] in NEs:
                 a0, a1 = a1, a0; p = sw.get(p, p)
-            if list(a0) != ['v', NE.i]:
+            if not (a0[0] == 'v' and a0[1] in NEs):
                 continue
             end = 'zero' if (a1[0] == 'c' and int(a1[1]) == 0) else 'neg_dy' if is_neg_dy(a1) else None
             if end is None:
@@ -807,3 +807,74 @@ def r18_error_term_interval_is_closed(ck, P, rid='C12-R18'):
                 ck.violation(R, f.name, 'renormalisation test against %s' % ('0' if end == 'zero' else '-dy'), '%s renormalises its error term when ne %s %s (%s) instead of strictly outside [-dy, 0]: the start state e = -dy (or the end state e = 0) of an edge that has not moved is renormalised, x changes by one unit, and a vertical or integer-slope side is rasterised one 1/65536 further left when it is stepped upwards than when it is stepped downwards' % (f.name, {'sle': '<=', 'sge': '>=', 'slt': '<', 'sgt': '>', None: '?'}.get(eff, eff), '0' if end == 'zero' else '-dy', t.loc()), t.loc())
     if n < 2:
         raise AnalysisBroken('%s: the two renormalisation tests of pixman_edge_step were not both recognised (%d)' % (rid, n))
+
+
+def r19_zero_source_operators_never_refused(ck, P, rid='C12-R19'):
+    """Partial evaluation: for an operator where a zero source changes the destination (the helper consults a constant table indexed by the
+    operator), the request covers the whole destination whatever the trapezoids are - also when none of them is valid or their box is
+    empty.  Under 'table entry == 0' the extents helper therefore has no path that answers FALSE (nothing to do)."""
+    from . import common
+    R = ck.rule(rid, 'in the extents helper of pixman_composite_trapezoids, under the assumption that the entry of the zero-source table for the operator is 0 (CLEAR, SRC, IN, OUT, ...: an empty mask still changes the destination), no path reaches a return of FALSE: compositing an all-zero mask with such an operator clears the whole destination, and so must a request whose trapezoids are all degenerate', floor=1)
+    F = P.fn('pixman_composite_trapezoids', required=False)
+    if F is None:
+        raise AnalysisBroken('%s: pixman_composite_trapezoids not found' % rid)
+    n = 0
+    for c in F.calls():
+        g = P.resolve(F, c.callee) if c.callee else None
+        if g is None or g.unit is not F.unit or g.exported:
+            continue
+        tl = [x for x in g.insts() if x.op == 'load' and g.root(g.path(x.a[0]))[0] == 'global' and 'zero_src' in str(g.root(g.path(x.a[0]))[1])]
+        if not tl or not any(x.op == 'store' and (g.last_field(g.path(x.a[1])) or '').startswith('pixman_box32.') for x in g.insts()):
+            continue
+        ck.saw(g)
+        rets = g.rets()
+        if len(rets) != 1 or not rets[0].a:
+            raise AnalysisBroken('%s: %s does not have a single value return' % (rid, g.name))
+        rv = g.v(rets[0].a[0]) if rets[0].a[0][0] == 'v' else None
+        ids = {x.i for x in tl}
+        false_edges = []
+        def on_edge(a, b, pv):
+            if rv is not None and rv.op == 'phi' and b == rv.bb.id:
+                for o, bb in zip(rv.a, rv.d['bb']):
+                    if bb == a:
+                        val = int(o[1]) if o[0] == 'c' else pv.get(o[1]) if o[0] == 'v' else None
+                        if val == 0:
+                            false_edges.append(a)
+        common.reach_under(g, lambda x: 0 if x.i in ids else None, set(), on_edge=on_edge)
+        if rv is None and rets[0].a[0][0] == 'c' and int(rets[0].a[0][1]) == 0:
+            false_edges.append(rets[0].bb.id)
+        n += 1
+        where = '%s: operator with an effect on a zero source' % g.name
+        if false_edges:
+            blk = g.blocks[false_edges[0]]
+            ck.violation(R, g.name, 'FALSE for an operator with a zero-source effect', '%s can answer FALSE (nothing to rasterise) although the operator changes the destination where the source is zero (path through the block ending at %s): a request whose trapezoids are all degenerate, or whose box is empty, returns without touching the destination, where compositing the (all-zero) temporary mask clears all of it' % (g.name, blk.term.loc()), blk.term.loc())
+        else:
+            ck.ok(R, where, 'always answers the whole destination')
+    if n == 0:
+        raise AnalysisBroken('%s: no extents helper consulting the zero-source table found' % rid)
+
+
+def r20_edge_products_in_wide_type(ck, P, rid='C12-R20'):
+    """T-WID: the error term of an edge advances by n * dx, n a distance in 16.16 rows and dx up to dy - 1 (also 16.16): the product needs
+    up to 62 bits.  Every product of an edge's dx or dy with a non-constant factor is formed in 64 bits."""
+    R = ck.rule(rid, 'every multiplication of pixman_edge.dx or pixman_edge.dy by a non-constant factor (the row distance n, the carry count) is performed in 64 bits, the field widened before the multiplication: in 32 bits n * dx wraps as soon as the step is one pixel and dx half a pixel, and the edge starts at an unrelated abscissa', floor=4)
+    n = 0
+    for f in P.functions():
+        for x in f.insts():
+            if x.op != 'mul':
+                continue
+            fld = None
+            for a in x.a:
+                y = f.v(f.strip_casts(a)) if a[0] == 'v' else None
+                if y is not None and y.op == 'load' and f.last_field(f.path(y.a[0])) in ('pixman_edge.dx', 'pixman_edge.dy'):
+                    fld = f.last_field(f.path(y.a[0]))
+            if fld is None or any(a[0] == 'c' for a in x.a):
+                continue
+            n += 1; ck.saw(f)
+            where = '%s: %s times a variable at %s' % (f.name, fld, x.loc())
+            if x.ty == 'i64':
+                ck.ok(R, where, 'in 64 bits')
+            else:
+                ck.violation(R, f.name, 'product with %s' % fld, '%s multiplies %s by a variable factor in %s (%s): the product of a 16.16 row distance and a 16.16 increment does not fit, wraps, and the carry into x computed from it puts the edge at an unrelated abscissa for steps of a pixel and more' % (f.name, fld, x.ty, x.loc()), x.loc())
+    if n == 0:
+        raise AnalysisBroken('%s: no product with pixman_edge.dx / dy found' % rid)
